@@ -44,18 +44,47 @@ pub enum Expect {
     Faulted { errno: i32 },
 }
 
+/// Index of the ground-truth log (built once per execution; linear in the log size).
+pub struct GtIndex {
+    /// per sent datagram: the first genuine delivery handed over in the datagram's own round
+    first_delivery: Vec<Option<usize>>,
+    attempts_by_round: Vec<Vec<usize>>,
+}
+
+impl GtIndex {
+    pub fn build(w: &World) -> Self {
+        let mut first_delivery: Vec<Option<usize>> = vec![None; w.sent.len()];
+        for (di, d) in w.deliveries.iter().enumerate() {
+            if d.genuine && w.sent[d.for_sent].round == d.round {
+                let slot = &mut first_delivery[d.for_sent];
+                match slot {
+                    Some(old) if w.deliveries[*old].time_ns <= d.time_ns => {}
+                    _ => *slot = Some(di),
+                }
+            }
+        }
+        let rounds = w.attempts.iter().map(|a| a.round + 1).max().unwrap_or(0);
+        let mut attempts_by_round = vec![vec![]; rounds];
+        for (i, a) in w.attempts.iter().enumerate() {
+            attempts_by_round[a.round].push(i);
+        }
+        Self { first_delivery, attempts_by_round }
+    }
+}
+
 pub fn expectations(w: &World, round: usize) -> Vec<Expect> {
+    expectations_ix(w, &GtIndex::build(w), round)
+}
+
+pub fn expectations_ix(w: &World, ix: &GtIndex, round: usize) -> Vec<Expect> {
     let mut out = vec![];
-    for a in w.attempts.iter().filter(|a| a.round == round) {
+    let empty = vec![];
+    for &ai in ix.attempts_by_round.get(round).unwrap_or(&empty) {
+        let a = &w.attempts[ai];
         match &a.outcome {
             AttemptOutcome::Sent(idx) => {
                 let s = &w.sent[*idx];
-                let first = w
-                    .deliveries
-                    .iter()
-                    .filter(|d| d.genuine && d.for_sent == *idx && d.round == round)
-                    .min_by_key(|d| d.time_ns);
-                match first {
+                match ix.first_delivery[*idx].map(|di| &w.deliveries[di]) {
                     Some(d) => {
                         let r = &w.resps[d.resp];
                         out.push(Expect::Complete {
@@ -93,9 +122,13 @@ fn status_name(p: &ProbeStatus) -> &'static str {
 
 /// Compare one published round with the ground truth.  Returns (key, detail) per discrepancy.
 pub fn check_round(w: &World, round: usize) -> Vec<(String, String)> {
+    check_round_ix(w, &GtIndex::build(w), round)
+}
+
+pub fn check_round_ix(w: &World, ix: &GtIndex, round: usize) -> Vec<(String, String)> {
     let mut bad = vec![];
     let p = &w.publishes[round];
-    let exp = expectations(w, round);
+    let exp = expectations_ix(w, ix, round);
     if p.probes.len() != exp.len() {
         bad.push((
             "slot-count".to_string(),
@@ -330,8 +363,9 @@ pub fn judge(t: &Task, o: &RunOutcome) -> Vec<(String, String)> {
     } else if o.world.publishes.len() != t.params.rounds {
         bad.push(("round-count".into(), format!("{} rounds published, expected {}", o.world.publishes.len(), t.params.rounds)));
     }
+    let ix = GtIndex::build(&o.world);
     for r in 0..o.world.publishes.len() {
-        bad.extend(check_round(&o.world, r));
+        bad.extend(check_round_ix(&o.world, &ix, r));
     }
     bad.extend(check_totals(&o.world, o));
     bad
